@@ -689,11 +689,20 @@ class DocGen:
         fname = c.choice(list(fields_of(self.schema, root)))
         self._suppress_once = True  # the root field itself carries no directive (it must not be skipped)
         node = self.field(root, fname, 0, scope, used, ufrags, frags)
-        sel = node
+        sels = [node]
+        if c.maybe(30):
+            # the same response key selected again (directly or inside an inline fragment): CollectFields still
+            # yields exactly one entry, so the operation stays valid (June 2018, 5.2.3.1)
+            self._suppress_once = True
+            twin = self.field(root, fname, 0, scope, used, ufrags, frags, force_key=node["alias"] or node["name"])
+            if c.maybe(40):
+                twin = {"k": "inline", "on": c.choice([None, root]), "dirs": [], "sels": [twin], "id": self.nid()}
+            sels.insert(c.int(0, 1), twin)
+            self.stat("subscription_root_repeated")
         for _ in range(c.weighted([(6, 0), (3, 1), (1, 2)])):
-            sel = {"k": "inline", "on": c.choice([None, root]), "dirs": [], "sels": [sel], "id": self.nid()}
+            sels = [{"k": "inline", "on": c.choice([None, root]), "dirs": [], "sels": sels, "id": self.nid()}]
             self.stat("subscription_root_in_inline")
-        return [sel]
+        return sels
 
     # ---------------------------------------------------------------- definitions
     def fragment(self, index, avail_frags):
